@@ -19,12 +19,12 @@ func init() {
 func VerifHarness_C05_kernel() {
 	n := int64(verifShape(0))
 	T := int64(verifShape(1))
-	cpu1 := int64(verifShape(2))          // milli-CPU per node
-	mem1 := int64(verifShape(3)) << 20    // bytes per node
+	cpu1 := int64(verifShape(2))       // milli-CPU per node
+	mem1 := int64(verifShape(3)) << 20 // bytes per node
 	if b := int64(verifShape(5)); b > 0 {
 		mem1 = b // exact byte size (optional 6th shape parameter)
 	}
-	mult := int64(verifShape(4))          // requests up to mult x capacity
+	mult := int64(verifShape(4)) // requests up to mult x capacity
 	cpuReq := verifInt("cpuReq", 0, mult*n*cpu1)
 	memReq := verifInt("memReq", 0, mult*n*mem1)
 
@@ -32,7 +32,7 @@ func VerifHarness_C05_kernel() {
 	cpuReqQ := *k8s_resource.NewCPUQuantity(cpuReq)
 	memReqQ := *k8s_resource.NewMemoryQuantity(memReq)
 	cpuPct, memPct, err := calcPercentUsage(cpuReqQ, memReqQ,
-		*k8s_resource.NewCPUQuantity(n*cpu1), *k8s_resource.NewMemoryQuantity(n*mem1), n)
+		*k8s_resource.NewCPUQuantity(n * cpu1), *k8s_resource.NewMemoryQuantity(n * mem1), n)
 	verifAssert("C05.percent-no-error", err == nil)
 
 	ng := &NodeGroupState{Opts: NodeGroupOptions{Name: "g", ScaleUpThresholdPercent: int(T)}}
